@@ -26,7 +26,7 @@ class C18arr(vlib.HistoryProp):
                 "both answer 'undef' exactly then (proved), the harness does not execute such a call",
                 "C18arr: resize(n) is only called with 1 <= n, size() <= n <= 89834777 (StringDictionary::AllocateMoreString only grows; a smaller n makes "
                 "addNewKeyEntry write behind the reverse table); interning more than 89834777 distinct keys is outside the contract (set_primes ends there, rehash() would resize(0))",
-                "C18arr: remove() is outside the proved alphabet (refuted: C18arr_remove_refuted and the witnesses in Properties.v); set VERIF_C18ARR_REMOVE=1 to run the 'remove-finding' cases",
+                "C18arr: remove() is outside the proved alphabet (refuted: C18arr_remove_refuted and the witnesses in Properties.v); the 'remove-finding' cases run by default and are matched against known_findings.json",
                 "C18arr: the hash is k mod hmod on int keys (a custom HashT) in driver and harness; the theorem holds for every hash function",
                 "C18arr: FreeTable/Free are not modelled (memory safety of the real code is checked by AddressSanitizer in the harness); addKeyIndex(key, wasAdded) and findKeyValue() "
                 "cannot be instantiated (they access private members of EntryArraySet) and are therefore not driven"]
@@ -149,7 +149,9 @@ class C18arr(vlib.HistoryProp):
                 p_clear = 0.03 if ln <= 300 else 0.002
                 cases.append(self.walk(rng, nkeys, hmod, ln, "w%d" % k, rng.choice([0, 0, 1, 2]), p_clear))
                 k += 1
-        if os.environ.get("VERIF_C18ARR_REMOVE"):
+        if not os.environ.get("VERIF_C18ARR_NO_REMOVE"):
+            # arrayset::remove is refuted (known findings W0-W3, DESIGN.md 6): these cases are
+            # expected to fail with the signatures listed in known_findings.json
             cases += self.remove_cases(rng, tier)
         return cases
 
@@ -196,7 +198,7 @@ def check(res, tier, seed):
                         "observed after every op; every history of length 2 / 4 over mutators + find/at/size + precondition-violating at/resize; seeded random walks "
                         "over 6..1000 keys with hash = k mod {1,2,3,5,7,16,1000} through the growth steps 1->7->17->37->79->..., three instantiations "
                         "(int/int with DefaultAlloc_set, K/V structs with counted value objects, int/int with the default block allocator); "
-                        "non-trivial = at least 3 ops and the set held >= 2 keys (it left the inline defaultEntry slot). remove() cases only with VERIF_C18ARR_REMOVE=1. ")
+                        "non-trivial = at least 3 ops and the set held >= 2 keys (it left the inline defaultEntry slot). remove() cases (origin remove-finding) are expected to hit the known findings. ")
     vlib.history_check(res, HP, tier, seed)
 
 
